@@ -66,6 +66,21 @@ Theorem getitem_chain : forall p n vs nm yy ov,
 Proof. exact (getitem_chain_proof (mnt_select_refines_proof payload) (met_select_refines_proof payload)). Qed.
 Print Assumptions getitem_chain.
 
+(* A chain of selections IS one selection: tf[i1][i2]...[ik] equals selecting, once, the composed positions of the
+   ORIGINAL rows (chain_positions: position j of the result is original row pos1[pos2[...[j]]]) from every feature of
+   every storage kind and from the target -- "the selected rows in the selected order" through any number of steps;
+   and the chain raises exactly when some step's index raises on the list of the rows that are left. *)
+Theorem getitem_chain_composes : forall p n vs nm yy ov,
+  frame_wf n vs yy ov -> vs <> [] \/ yy <> None \/ ov <> None ->
+  tf_getitem_chain (frame_of vs nm yy ov) p
+  = option_map (fun pos => sel_frame pos vs nm yy ov) (chain_positions n p).
+Proof. exact (getitem_chain_composes_proof (mnt_select_refines_proof payload) (met_select_refines_proof payload)). Qed.
+Print Assumptions getitem_chain_composes.
+
+Theorem chain_positions_in_range : forall p n pos, chain_positions n p = Some pos -> Forall (fun i => i < n) pos.
+Proof. exact chain_positions_bound. Qed.
+Print Assumptions chain_positions_in_range.
+
 (* A slice that overshoots the end behaves like the same slice on a Python
    list: tf[a:b] with a <= n <= b keeps rows a .. n-1 of every feature. *)
 Theorem overshooting_slice : forall n vs nm yy ov a b,
@@ -165,6 +180,10 @@ Proof.
 Qed.
 
 Example ex_validates : tf_validate (frame_of ex_vs ex_names ex_y (Some 3)) = true.
+Proof. vm_compute. reflexivity. Qed.
+
+Example ex_chain_positions :
+  chain_positions 3 [ITensor [2; 0; 2]%Z; ISlice (Some 1%Z) (Some 5%Z) None; IInt (-1)%Z] = Some [2].
 Proof. vm_compute. reflexivity. Qed.
 
 Example ex_chain :
